@@ -1013,7 +1013,7 @@ func (s *State) evalForInteger(fe *ast.ForExpression, start *int64, end int64, n
 				return s.Errorf("for loop unexpected control type %s", r.ControlType.String())
 			}
 		default:
-			lastEval = object.CopyRegister(nextEval) // the value now, not the live loop register.
+			lastEval = object.Value(nextEval) // the value now, not a live register or reference.
 		}
 	}
 	return lastEval
@@ -1088,7 +1088,7 @@ func (s *State) evalForList(fe *ast.ForExpression, list object.Object, name stri
 				return s.Errorf("for loop unexpected control type %s", r.ControlType.String())
 			}
 		default:
-			lastEval = nextEval
+			lastEval = object.Value(nextEval) // the value now, not a live reference.
 		}
 	}
 	return lastEval
@@ -1124,7 +1124,7 @@ func (s *State) evalForExpression(fe *ast.ForExpression) object.Object {
 					return r
 				}
 			default:
-				lastEval = nextEval
+				lastEval = object.Value(nextEval) // the value now, not a live reference.
 			}
 		case object.FALSE, object.NULL:
 			if log.LogVerbose() {
